@@ -751,6 +751,13 @@ class Interp:
         d = _A.norm(a.a - b.a)
         s = rat_sign(d, self.positive)
         if s is None:
+            if callable(self.policy):
+                # region sampling: the caller supplies a point of the region being explored; comparisons are decided there
+                self.undecided_comparisons += 1
+                sv = self.policy(d)
+                if sv is None:
+                    raise EvalError(f"cannot decide the sign of {d!r} at the sample point")
+                return {ast.Lt: sv < 0, ast.LtE: sv <= 0, ast.Gt: sv > 0, ast.GtE: sv >= 0, ast.Eq: sv == 0, ast.NotEq: sv != 0}[type(op)]
             if self.policy is not None:
                 # path splitting: the caller runs the code once per outcome of undecidable comparisons
                 self.undecided_comparisons += 1
@@ -1145,6 +1152,21 @@ class Interp:
             if isinstance(A, Arr) and isinstance(B, Arr):
                 return matmul(A, B)
             return A * B
+        if fn in ("sign", "abs", "absolute") and callable(self.policy) and isinstance(n(args[0]), Dual) and rat_const(n(args[0]).a) is None:
+            x = n(args[0])
+            sv = self.policy(x.a)
+            if sv is None:
+                raise EvalError("sign at the sample point")
+            sg = 1 if sv > 0 else (-1 if sv < 0 else 0)
+            if fn == "sign":
+                return Dual(sg)
+            return x if sg >= 0 else -x
+        if fn == "sign":
+            x = n(args[0])
+            c_ = rat_const(x.a) if isinstance(x, Dual) else None
+            if c_ is None:
+                raise EvalError("sign of a symbolic value")
+            return Dual(1 if c_ > 0 else (-1 if c_ < 0 else 0))
         if fn in ("log", "log1p", "exp", "expm1", "sqrt", "abs"):
             x = n(args[0])
             return x.map(lambda v: d_fun(fn, v)) if isinstance(x, Arr) else d_fun(fn, x)
